@@ -83,8 +83,6 @@ class Ctx:
         self.scratch = os.path.join(base, f"verif-{prop}-{os.getpid()}-w{worker}")
         shutil.rmtree(self.scratch, ignore_errors=True)
         os.makedirs(self.scratch)
-        # signac reads ~/.signacrc: point HOME at an empty scratch dir.
-        os.environ["HOME"] = self.scratch
 
     # ---- time -------------------------------------------------------------
     def out_of_time(self):
@@ -351,6 +349,10 @@ def main(argv=None):
 
     sys.path.insert(0, REPO)
     sys.path.insert(0, VERIF)
+    # signac resolves ~/.signacrc at import time: point HOME at an empty directory first
+    home = os.path.join("/dev/shm" if os.access("/dev/shm", os.W_OK) else "/var/tmp", "verif-empty-home")
+    os.makedirs(home, exist_ok=True)
+    os.environ["HOME"] = home
     t0 = time.time()
     try:
         assert_signac_from_repo()
